@@ -1,6 +1,7 @@
 package c12
 
 import (
+	"verif/engine"
 	"crypto/ecdsa"
 	"crypto/elliptic"
 	"encoding/asn1"
@@ -332,6 +333,9 @@ func sm2Ops() []*opDef {
 					return obs{bad: "nil ephemeral key"}
 				}
 				out := cat32(ra.X, ra.Y)
+				if s := runInterlude(func(r io.Reader) error { _, err := ke.InitKeyExchange(r); return err }); s != "" {
+					return obs{bad: s}
+				}
 				key, _, err := ke.ConfirmResponder(ecPub(sm2.P256(), rFixPt), nil)
 				if err != nil {
 					return obs{bad: "ConfirmResponder after InitKeyExchange: " + err.Error()}
@@ -365,6 +369,12 @@ func sm2Ops() []*opDef {
 					return obs{bad: "nil ephemeral key or confirmation value of wrong size"}
 				}
 				out := concat(cat32(rb.X, rb.Y), sb)
+				if s := runInterlude(func(r io.Reader) error {
+					_, _, err := ke.RepondKeyExchange(r, ecPub(sm2.P256(), rFixPt))
+					return err
+				}); s != "" {
+					return obs{bad: s}
+				}
 				key, err := ke.ConfirmInitiator(nil)
 				if err != nil {
 					return obs{bad: "ConfirmInitiator after RepondKeyExchange: " + err.Error()}
@@ -507,4 +517,48 @@ func newGrpA5() *grp {
 		panic("c12: no all-zero-mask scalar found below 5000")
 	}
 	return g
+}
+
+
+// ---------------------------------------------------------------------------------------------
+// failed repeat on a protocol object: after a successful InitKeyExchange / RespondKeyExchange the same call is made
+// once more with a random source that fails at its first read. The repeat must return an error, and the session the
+// caller is in (the ephemeral key it has already sent) must be unaffected: the confirmation step still derives the
+// key that belongs to the first, successful call. interludeAns < 0: no interlude (the plain operations).
+
+var interludeAns = -1
+
+func runInterlude(call func(r io.Reader) error) string {
+	if interludeAns < 0 {
+		return ""
+	}
+	rd := engine.NewScriptReader(midB, midA)
+	rd.Fault = map[int]int{0: interludeAns}
+	if err := call(rd); err == nil {
+		return "the repeated call with a random source failing at its first read returned no error"
+	}
+	return ""
+}
+
+func withFailedRepeat(ops []*opDef) []*opDef {
+	var out []*opDef
+	for _, b := range ops {
+		switch b.name {
+		case "sm2.kx.init", "sm2.kx.respond", "sm9.kx.init", "sm9.kx.respond":
+		default:
+			continue
+		}
+		for _, fa := range faultAnswers {
+			b, fa := b, fa
+			o := &opDef{name: b.name + ".then-failed-repeat." + fa.name, noun: b.noun, g: b.g, hiOff: b.hiOff, either: b.either, light: true,
+				expect: b.expect, recoverScalar: b.recoverScalar}
+			o.run = func(rd io.Reader) obs {
+				interludeAns = fa.ans
+				defer func() { interludeAns = -1 }()
+				return b.run(rd)
+			}
+			out = append(out, o)
+		}
+	}
+	return out
 }
